@@ -317,7 +317,7 @@ func runCorr(c *vh.Ctx, cases []corrCase) {
 		if got != want {
 			c.Fail(vh.Failure{Kind: "correspondence", What: "Lean parseExpr and parser.ParseProgram disagree on a token list",
 				Case: map[string]interface{}{"ctx": k.cx.name, "tokens": strings.Join(k.toks, " "), "src": k.cx.pre + tokText(k.toks) + k.cx.post, "class": k.class, "request": reqs[i]},
-				Got: "model: " + got, Want: "real: " + want})
+				Got:  "model: " + got, Want: "real: " + want})
 		}
 	}
 }
@@ -372,7 +372,7 @@ func run(c *vh.Ctx) {
 		{"print", "n1 ? n2 : n3 > s1", "ok (print (cond n1 n2 n3) > s1)"},      // F06 (fixed): the > after ?: in print is a redirect
 		{"print", "n1 ? n2 : n3 | s1", "ok (print (cond n1 n2 n3) | s1)"},      // F06
 		{"print", "n1 > n2", "ok (print n1 > n2)"},                             // print_gt_is_redirect
-		{"print", "n1 > n2 > n3", "ok (print n1 > (bin > n2 n3))"},                                    //
+		{"print", "n1 > n2 > n3", "ok (print n1 > (bin > n2 n3))"},             //
 		{"print", "( n1 > n2 ) > s3", "ok (print (grp (bin > n1 n2)) > s3)"},   //
 		{"print", "v0 = n1 > s2", "ok (print (asg = v0 n1) > s2)"},             //
 		{"print", "n1 , n2", ""},                                               //
